@@ -64,6 +64,7 @@ def gen_case(g, tier, idx, base=None):
     # standard deviations of +-pi, angles outside (-pi, pi], wide angular spreads); the other styles
     # get a circular layout now and then, as an orthogonal dimension.
     circ = 0
+    wide = False
     if style == "circular":
         lin, circ = r.choice([(1, 1), (1, 1), (0, 1), (2, 1), (1, 2), (0, 2), (3, 1), (2, 2), (0, 3)])
         n = lin + circ
@@ -150,7 +151,11 @@ def gen_case(g, tier, idx, base=None):
         means = [[g.dyadic(-2, 2, 3) for _ in range(n)] for _ in range(k)]
     if style == "circular":
         F = new_F()
-        means, covs = circular_beliefs(g, n, k, circ)
+        # "wide": angular standard deviations of 1.4 .. 3 rad, so that draws land more than pi away from their
+        # own mean (where a wrapped difference x - mu' differs from the plain one); the wrapped correction is
+        # then skipped in half of the corrections so that the drawn-from covariance stays that wide
+        wide = r.random() < 0.3
+        means, covs = circular_beliefs(g, n, k, circ, wide)
     states = [[means[i][j] + r.uniform(-1, 1) for j in range(n)] for i in range(k)]
     if style == "circular":
         # previous positions: angles anywhere, also (far) outside (-pi, pi]
@@ -205,7 +210,7 @@ def gen_case(g, tier, idx, base=None):
     lik_scale = r.choice([1.0, 1.0, 0.5, 3.0]) if base is None else base["lik_scale"]
     steps = []
     for s, kd in enumerate(kinds):
-        skip = (r.random() < (0.6 if (style == "xcond" and kd == "C") else 0.12)) and not (style == "samebelief" and s == 0)
+        skip = (r.random() < (0.6 if (style == "xcond" and kd == "C") else (0.5 if (style == "circular" and wide and kd == "C") else 0.12))) and not (style == "samebelief" and s == 0)
         st = {"kind": kd, "skip": skip}
         if kd == "P":
             if vary and r.random() < 0.7:
@@ -281,7 +286,7 @@ def gen_case(g, tier, idx, base=None):
     return harness_line(meta), meta
 
 
-def circular_beliefs(g, n, k, circ):
+def circular_beliefs(g, n, k, circ, wide=False):
     """beliefs of a (n - circ linear, circ circular) particle set whose angular part sits where the circle
     closes: angular means within a few standard deviations of +-pi (either side of the cut, also beyond
     it, i.e. outside (-pi, pi]), now and then whole turns away, angular standard deviations 0.05 .. 2.5"""
@@ -290,6 +295,8 @@ def circular_beliefs(g, n, k, circ):
     side = r.choice([1.0, -1.0])
     for i in range(k):
         P = g.spd(n, cond=10 ** r.uniform(0, 2.5), scale=10 ** r.uniform(-1.5, 0.8))
+        if wide:
+            P = g.spd(n, cond=10 ** r.uniform(0, 0.5), scale=10 ** r.uniform(0.3, 0.95))
         mu = g.vec(n, -2, 2)
         for j in range(n - circ, n):
             sd = math.sqrt(P[j][j])
@@ -914,7 +921,13 @@ def analyse(M, Hh, acc):
             # x and mu' are rounded doubles: v = x - mu' carries an absolute error eps*(|mu'|+|v|)
             vmax = max([abs(float(a)) for a in v] + [1e-300])
             canc = 1.0 + max([abs(float(a)) for a in mu] + [0.0]) / vmax
-            per.append({"mu": mu, "P": P, "x": x, "v": v, "logq": g[0], "quad": g[1], "kP": g[2], "tm": 256 * n * EPS * g[2] * canc})
+            # a corrected "covariance" that is not exactly symmetric (P - K Py K^T in floating point; relative
+            # asymmetry up to 1e-11 for the extremely anisotropic beliefs) defines the Gaussian only up to that
+            # asymmetry (LDLT reads one triangle, the exact quadratic form reads both): amplified by cond(P')
+            asym = max([abs(P[a][b] - P[b][a]) for a in range(n) for b in range(a)] + [0.0]) / max(vlib.fnorm(P), 1e-300)
+            acc.mx("max_relative_asymmetry_of_corrected_covariance", asym)
+            per.append({"mu": mu, "P": P, "x": x, "v": v, "logq": g[0], "quad": g[1], "kP": g[2],
+                        "tm": 256 * n * EPS * g[2] * canc + 2 * g[2] * asym})
             acc.mx("max_cond_P", g[2])
             if n >= 3:
                 invol, nontriv = ldlt_perm_involutive(P)
@@ -1182,6 +1195,8 @@ def run(ctx):
         "rule": "random GPF histories: 3..6 prediction/correction events (1..4 for the tiny style), n in 1..4 (6 for WNA, thorough), k in 1..8, m in 1..3, "
                 "wrapped KF/UKF prediction and KF/UKF/SUKF correction, scripted / position-dependent / shipped Gaussian likelihood, harness-defined / "
                 "WhiteNoiseAcceleration transition density, distinct beliefs per particle, invalid likelihood at scripted steps, wrapped-step skip flags; "
+                "particle sets with circular components ParticleSet(k, lin, circ) (style circular: angular means near +-pi, angles outside (-pi, pi], "
+                "angular standard deviations up to 3 rad; 20% of the cases of the other styles); "
                 "non-trivial = n*k > 1 and at least 2 events; distinct = distinct input lines",
         "samples": [{"case": describe(cases[0][1]), "harness_line": lines[0][:300]},
                     {"case": describe(cases[len(cases) // 2][1]), "harness_line": lines[len(cases) // 2][:300]},
@@ -1194,7 +1209,13 @@ def run(ctx):
                            "gpfCorrect: likelihood valid -> sample, weight": acc.hist.get("branch:valid-likelihood", 0),
                            "gaussDispatch: skip (prediction)": acc.hist.get("wrapped-skip:P", 0),
                            "gaussDispatch: skip (correction)": acc.hist.get("wrapped-skip:C", 0),
-                           "gpfPredict": acc.hist.get("step:P", 0)},
+                           "gpfPredict": acc.hist.get("step:P", 0),
+                           "gpfCorrect on a circular layout (ParticleSet(k, lin, circ)), valid likelihood":
+                               sum(v for k_, v in acc.hist.items() if k_.startswith("circular-layout:correction:") and "invalid" not in k_),
+                           "gpfSample: drawn angle outside (-pi, pi] kept as drawn (a reducing implementation would differ from the model)":
+                               acc.hist.get("circular-layout:drawn-angle-outside(-pi,pi] (a wrapped draw would differ)", 0),
+                           "gpfPredict on a circular layout with a position angle outside (-pi, pi]":
+                               acc.hist.get("circular-layout:prediction-with-position-angle-outside(-pi,pi]", 0)},
     })
     ctx.assumptions += [
         "std::normal_distribution draws are i.i.d. standard normal (libstdc++ contract; trusted): with gpf_mahalanobis this gives the chi-square law of the squared Mahalanobis distances",
